@@ -275,7 +275,10 @@ class Run:
             self.samples.append(obj)
 
     def violation(self, key, what, replay, no_input=False):
-        if len(self.violations) < 50:
+        self.violation_counts = getattr(self, "violation_counts", {})
+        n = self.violation_counts.get(key, 0)
+        self.violation_counts[key] = n + 1
+        if n < 2 and len(self.violations) < 200:
             self.violations.append(dict(key=key, what=what, replay=replay, no_input=no_input))
 
 
